@@ -8,6 +8,7 @@ package PKG
 import (
 	"fmt"
 	"os"
+	"runtime"
 	"strconv"
 	"strings"
 )
@@ -51,7 +52,30 @@ func verifNondetBool(tag string) bool    { return verifPop() != 0 }
 func verifNondetF32(tag string) float32  { return verifF32(uint32(verifPop())) }
 func verifChoice(n int) int              { return int(verifPop()) }
 func verifConcretize(v int) int          { return v }
-func verifAllocBudget(limit uint64)      {}
+
+var (
+	verifAllocLimit uint64
+	verifAllocStart uint64
+)
+
+// verifAllocBudget: natively, remember the budget and the allocation counter; verifRunReplay
+// reports VERIF-ALLOC-EXCEEDED if more than the budget was allocated afterwards.
+func verifAllocBudget(limit uint64) {
+	var ms runtime.MemStats
+	runtime.ReadMemStats(&ms)
+	verifAllocLimit, verifAllocStart = limit, ms.TotalAlloc
+}
+
+func verifCheckAlloc() {
+	if verifAllocLimit == 0 {
+		return
+	}
+	var ms runtime.MemStats
+	runtime.ReadMemStats(&ms)
+	if used := ms.TotalAlloc - verifAllocStart; used > verifAllocLimit {
+		fmt.Printf("VERIF-ALLOC-EXCEEDED allocated=%d budget=%d\n", used, verifAllocLimit)
+	}
+}
 func verifReach(tag string)              {}
 func verifNote(tag string)               {}
 func verifYield()                        {}
@@ -88,8 +112,10 @@ func verifAssert(c bool, tag string) {
 // verifRunReplay runs one entry natively and reports what happened.
 func verifRunReplay(entry func()) (failed []string, panicked any) {
 	verifLoadReplay()
+	verifAllocLimit = 0
 	defer func() {
 		failed = verifFailed
+		verifCheckAlloc()
 		if r := recover(); r != nil {
 			if _, ok := r.(verifAssumeFailed); ok {
 				fmt.Println("VERIF-ASSUME-FAILED")
@@ -109,4 +135,16 @@ func verifIteString(c bool, a, b string) string {
 		return a
 	}
 	return b
+}
+
+// verifFillBytes stores fresh nondeterministic bytes into p[0:n] (n <= max <= len-capacity of p).
+// Exactly min(max, cap(p)) values are consumed from the replay vector.
+func verifFillBytes(tag string, p []byte, n int, max int) {
+	p = p[:cap(p)]
+	for i := 0; i < max && i < len(p); i++ {
+		b := byte(verifPop())
+		if i < n {
+			p[i] = b
+		}
+	}
 }
